@@ -40,6 +40,105 @@ type Case struct {
 	// renders something itself) first lets the next history of another context render. The
 	// contexts stay independent; only the moments at which they render interleave.
 	Nested bool `json:"nested,omitempty"`
+	// Bare: renders whose top-level component is not a generated template (a script template
+	// value, a once handle, a templ.Join of them, a hand-written ComponentFunc that calls the
+	// runtime's RenderCSSItems / RenderScriptItems), each handed a plain context nobody has
+	// initialised. Every one of them is a rendering context of its own.
+	Bare []Bare `json:"bare,omitempty"`
+}
+
+type Bare struct {
+	Kind string `json:"kind"` // script | join | css-func | script-items | once-fixed | once-block
+	A    int    `json:"a"`
+	B    int    `json:"b"`
+	N    int    `json:"n"`
+	S    string `json:"s"`
+	Via  string `json:"via"` // render | handler | gohtml
+}
+
+func (b Bare) build() (templ.Component, []event) {
+	switch b.Kind {
+	case "script":
+		return fx.EScript(b.A, b.N, b.S), []event{{Kind: "call", Cap: capOf(b.A, b.N, b.S)}}
+	case "join":
+		bb := b.B
+		if bb%3 == b.A%3 {
+			bb++
+		}
+		return templ.Join(fx.EScript(b.A, b.N, b.S), fx.EScript(bb, b.N, b.S)),
+			[]event{{Kind: "call", Cap: capOf(b.A, b.N, b.S)}, {Kind: "call", Cap: capOf(bb, b.N, b.S)}}
+	case "css-func":
+		cl := fx.ECSS(b.A, b.N)
+		return templ.ComponentFunc(func(ctx context.Context, w io.Writer) error {
+				if err := templ.RenderCSSItems(ctx, w, cl); err != nil {
+					return err
+				}
+				_, err := io.WriteString(w, `<div class="`+templ.EscapeString(cl.ClassName())+`"></div>`)
+				return err
+			}),
+			[]event{{Kind: "elem", Tag: "div", HasClass: true, Classes: cl.ClassName()}}
+	case "script-items":
+		sc := fx.EScript(b.A, b.N, b.S)
+		return templ.ComponentFunc(func(ctx context.Context, w io.Writer) error {
+				if err := templ.RenderScriptItems(ctx, w, sc); err != nil {
+					return err
+				}
+				_, err := io.WriteString(w, `<button onclick="`+sc.Call+`"></button>`)
+				return err
+			}),
+			[]event{{Kind: "elem", Tag: "button", Handlers: [][]any{capOf(b.A, b.N, b.S)}}}
+	case "once-block":
+		id := fmt.Sprintf("ob%d", b.A)
+		inner := templ.ComponentFunc(func(ctx context.Context, w io.Writer) error {
+			_, err := io.WriteString(w, `<script id="`+id+`" type="text/plain">once</script>`)
+			return err
+		})
+		h := fx.EHandle(b.A)
+		return templ.ComponentFunc(func(ctx context.Context, w io.Writer) error {
+			return h.Once().Render(templ.WithChildren(ctx, inner), w)
+		}), []event{{Kind: "once", ID: id}}
+	default: // once-fixed
+		return fx.EFixed(), []event{{Kind: "fixed"}}
+	}
+}
+
+func (b Bare) render() (out []byte, err error) {
+	defer func() {
+		if x := recover(); x != nil {
+			err = fmt.Errorf("panic: %v", x)
+		}
+	}()
+	comp, _ := b.build()
+	switch b.Via {
+	case "handler":
+		rr := httptest.NewRecorder()
+		templ.Handler(comp).ServeHTTP(rr, httptest.NewRequest("GET", "/", nil))
+		if rr.Code != 200 {
+			return nil, fmt.Errorf("status %d: %s", rr.Code, clip(rr.Body.String()))
+		}
+		return rr.Body.Bytes(), nil
+	case "gohtml":
+		h, err := templ.ToGoHTML(context.Background(), comp)
+		return []byte(h), err
+	default:
+		var buf bytes.Buffer
+		err := comp.Render(context.Background(), &buf)
+		return buf.Bytes(), err
+	}
+}
+
+func decideBare(c Case) error {
+	for i, b := range c.Bare {
+		out, err := b.render()
+		if err != nil {
+			return fmt.Errorf("bare render %d (%+v): %v", i, b, err)
+		}
+		_, evs := b.build()
+		if err := judge(out, evs, nil); err != nil {
+			return fmt.Errorf("render %d of %d, each with a fresh plain context (%+v): %v; output %q", i+1, len(c.Bare), b, err, clip(string(out)))
+		}
+	}
+	return nil
 }
 
 type hookWriter struct {
@@ -348,6 +447,9 @@ func renderInto(ctx context.Context, uses []fx.EUse, w io.Writer) (err error) {
 }
 
 func decide(c Case) error {
+	if len(c.Bare) > 0 {
+		return decideBare(c)
+	}
 	registered := map[string]bool{}
 	var regClasses []templ.CSSClass
 	for _, r := range c.Registered {
@@ -615,6 +717,36 @@ func TestPropNested(t *testing.T) {
 		rec.NonTrivial(fmt.Sprint(c), func() any {
 			return map[string]any{"nested": true, "uses_in_context_0": len(long), "other_histories": len(c.Histories) - 1}
 		})
+		if err := decide(c); err != nil {
+			rec.Fail(t, c, "%v", err)
+		}
+	})
+}
+
+func TestPropBare(t *testing.T) {
+	rapid.Check(t, func(t *rapid.T) {
+		var c Case
+		for i, n := 0, rapid.IntRange(2, 6).Draw(t, "n"); i < n; i++ {
+			c.Bare = append(c.Bare, Bare{
+				Kind: rapid.SampledFrom([]string{"script", "join", "css-func", "script-items", "once-fixed", "once-block"}).Draw(t, "kind"),
+				A:    rapid.IntRange(0, 2).Draw(t, "a"), B: rapid.IntRange(0, 2).Draw(t, "b"),
+				N: rapid.SampledFrom([]int{1, 2}).Draw(t, "n"), S: rapid.SampledFrom([]string{"x", "y", "</script>"}).Draw(t, "s"),
+				Via: rapid.SampledFrom([]string{"render", "handler", "gohtml"}).Draw(t, "via"),
+			})
+		}
+		rec.Eval(1)
+		rec.Class("top-level components that are not generated templates, plain contexts")
+		repeat := false
+		for i, b := range c.Bare {
+			for _, o := range c.Bare[:i] {
+				if o.Kind == b.Kind && o.A%3 == b.A%3 {
+					repeat = true
+				}
+			}
+		}
+		if repeat {
+			rec.NonTrivial(fmt.Sprint(c), func() any { return c })
+		}
 		if err := decide(c); err != nil {
 			rec.Fail(t, c, "%v", err)
 		}
